@@ -43,6 +43,19 @@ class SymRaise(Exception):
         self.bases = tuple(bases)  # names of base classes, most specific first
 
 
+class SLogger:
+    """a logging.Logger (or the logging / warnings module used as a sink): every method is a no-op that returns None; logging never
+    changes what the program computes (assumed: no handler raises, warnings are not turned into errors)"""
+
+    def __init__(self, label="logger"):
+        self.label = label
+
+
+class SLoggerMethod:
+    def __init__(self, name):
+        self.name = name
+
+
 class PathDead(Exception):
     """An `assume` made the current path infeasible."""
 
